@@ -276,12 +276,8 @@ class CrcPdu:
         kind = self.kind
         ws = barg(bits)
         if kind == "dh":
-            if is_err(o):
-                return None  # the field decoder raised: C03's subject, no check was computed
-            reser = call(lambda: o.as_bits()[:-16])
-            if is_err(reser):
-                return None
-            return f"dh.check {barg(bits[80:96])} {barg(reser)}", f"{b01(o.crc_ok)} {barg(o.crc)}"
+            # an exception of the field decoder (C03's subject) is an input of the model
+            return f"dh.dec {ws} {int(is_err(o))}", ("ERR ValueError" if is_err(o) else b01(o.crc_ok))
         if kind == "pi":
             return f"pi.dec {ws}", (o if is_err(o) else f"{b01(o.crc_ok)} {o.crc} {barg(o.as_bits())}")
         if kind == "slc":
@@ -369,6 +365,8 @@ class CrcPdu:
                 ctx.fail("serialise", {"pdu": kind, "last": self.last}, f"as_bits of a {tag} PDU raised {word}")
                 continue
             sent = barg(word)
+            if kind == "dh":
+                pairs.append((f"dh.enc {sent[:80]}", sent))
             # ---- selfcheck
             p, ind, f0 = self.parse(word)
             c = self.corr(word, p)
@@ -545,11 +543,12 @@ def run(ctx):
         "Lean 4.33 kernel",
         "tools/extract.py, extract_crc.py, extract_integrity.py (Golay/QR matrices, CRC configurations and masks, enum value graphs, block lengths, HRNP opcodes)",
         "hand-written model of the check logic (Model/Integrity.lean on top of Model/Codes.lean and Model/Crc*.lean) tied to the code by this run's correspondence",
-        "inputs of the model taken from the real code: the re-serialised data bits of a parsed data header (field codec = C03), whether the HDAP stage of an HRNP packet raises (C12)",
+        "inputs of the model taken from the real code: whether the field decoder of a data header raises (field codec = C03), whether the HDAP stage of an HRNP packet raises (C12)",
         "bitarray / numpy trusted as the substrate",
     ]
     ctx.assumptions += [
-        "the CRC detection theorems assume a received check field that is not all-zero (the constructors treat 0 as 'please generate': known finding zero-check-field) and, for the data header and short LC, that re-serialising the parsed fields changes the sent data bits only where the error hit (no undefined enum value folded onto a different bit pattern); the oracle makes neither assumption",
+        "the CRC detection theorems assume a received check field that is not all-zero (the constructors treat 0 as 'please generate': known finding zero-check-field; for a confirmed last block also a non-zero CRC-32 field, sent and received); the oracle does not",
+        "bursts are bursts of the order in which the CRC covers the bits: for the short LC the 8 CRC bits are sent least significant bit first, for a confirmed block the order is data, (CRC-32,) serial number, CRC-9 (sent LSB first); a burst of the PDU bit order that straddles these field boundaries is not a burst of the code and carries no guarantee (ETSI layout, not a library matter)",
         "HRNP: single-bit errors that clear a bit of the packet-length field are not covered by the theorem (the packet is then checked as a shorter one); the oracle includes them",
     ]
     L = lib()
